@@ -16,6 +16,7 @@ Inductive query :=
 | QLoading (branch lu lb mu mb : option string) (limits : limits_t QNum)
 | QLoadingAt (ps : list Q) (branch kind : option string) (fill : fillv QNum) (pu pm lu lb mu mb : option string)
 | QPressureAt (ls : list Q) (branch kind : option string) (fill : fillv QNum) (pu pm lu lb mu mb : option string)
+| QSpread (p : Q) (branch : option string) (fill : fillv QNum) (pu pm lu lb mu mb : option string)
 | QConv (c : call).
 
 Definition res_code {A} (r : res A) : Z := match r with Ok _ => 0%Z | Err e => exn_code e end.
@@ -31,6 +32,9 @@ Definition do_query (s : iso QNum) (q : query) : iso QNum * Z * list Q :=
   | QPressureAt ls b k f pu pm lu lb mu mb =>
       match iso_pressure_at QNum s ls b k f pu pm lu lb mu mb with
       | SOk (s', v) => (s', 0%Z, v) | SErr e s' => (s', exn_code e, []) end
+  | QSpread p b f pu pm lu lb mu mb =>
+      match iso_spreading_outcome QNum s p b f pu pm lu lb mu mb with
+      | SOk (s', _) => (s', 0%Z, []) | SErr e s' => (s', exn_code e, []) end
   | QConv c => let o := do_call s c in (state_after o, match o with SOk _ => 0%Z | SErr e _ => exn_code e end, [])
   end.
 Definition cache_code (c : option (cache QNum)) : Z :=
